@@ -96,6 +96,8 @@ package fscache
 //@   requires CInv(c)
 //@   only_calls c.remoteFS : ReadDir IsExist IsFile IsDir ReadFile Reader Lstat Filespace
 //@   ensures has(c.changes.write, cleanPath(old(dest)))
+// the journal only grows (the callers below record the destination before they delegate to Copy)
+//@   ensures foralls(s, old(has(c.changes.write, s)) ==> has(c.changes.write, s))
 //@   at_call Copier.Do requires $0.DestFS == c.bufferFS && $0.DestPath == cleanPath(old(dest)) && $0.SrcPath == cleanPath(old(src)) && ($0.SrcFS == c.bufferFS || $0.SrcFS == c.remoteFS)
 //@ func (*Cache).CopyDirectory [C06 C07]
 //@   requires CInv(c)
